@@ -1,7 +1,21 @@
+import functools
+import threading
 from collections.abc import Hashable
-from typing import Dict, Generic, Optional, TypeVar, cast
+from typing import Any, Callable, Dict, Generic, Optional, TypeVar, cast
 
 T = TypeVar("T")
+TFunc = TypeVar("TFunc", bound=Callable[..., Any])
+
+
+# The cache is shared by all threads that render templates. Each of the public methods
+# makes several dependent changes to the dict and the linked list, so they must not interleave.
+def _synchronized(method: TFunc) -> TFunc:
+    @functools.wraps(method)
+    def wrapper(self: "LRUCache", *args: Any, **kwargs: Any) -> Any:
+        with self._lock:
+            return method(self, *args, **kwargs)
+
+    return cast(TFunc, wrapper)
 
 
 class CacheNode(Generic[T]):
@@ -30,7 +44,9 @@ class LRUCache(Generic[T]):
         self.tail = CacheNode[T]("", cast(T, None))  # Least recently used
         self.head.next = self.tail
         self.tail.prev = self.head
+        self._lock = threading.RLock()
 
+    @_synchronized
     def get(self, key: Hashable) -> Optional[T]:
         """
         Retrieve the value associated with the key.
@@ -47,6 +63,7 @@ class LRUCache(Generic[T]):
         else:
             return None  # Key not found
 
+    @_synchronized
     def has(self, key: Hashable) -> bool:
         """
         Check if the key is in the cache.
@@ -56,6 +73,7 @@ class LRUCache(Generic[T]):
         """
         return key in self.cache
 
+    @_synchronized
     def set(self, key: Hashable, value: T) -> None:
         """
         Insert or update the value associated with the key.
@@ -88,6 +106,7 @@ class LRUCache(Generic[T]):
             self.cache[key] = new_node
             self._add_to_front(new_node)
 
+    @_synchronized
     def clear(self) -> None:
         """Clear the cache."""
         self.cache.clear()
